@@ -451,13 +451,13 @@ def bestMatch (dyadic : Bool) (tl tr : Nat) : List Nat → Nat → Nat
 /-- conversions requested by `BestOpMatch` for one operand: `if (TypeMask & 2) TempResultToInt(…);
 if (TypeMask & 1) TempResultToFloat(…);` – two independent steps, a string that is to become a float
 takes both.  `TempResultToInt` on a string without integer value (`NonZString2Int` < 0: empty or longer
-than four characters) sets `Typ = TempNone` and the operator body is still called: it reads the
-`Contents` union of an operand that holds no number (`.ub`; finding `string-operand-not-convertible`). -/
+than four characters) is a type error (since the repair 9e997b4; before it `Typ = TempNone` was set and the operator body still
+called - finding `string-operand-not-convertible`). -/
 def convert (tm : Nat) (v : Val) : Except Err Val :=
   let v1 : Except Err Val :=
     if tm &&& 2 ≠ 0 then
       match v with
-      | .str s => match nonZString2Int s with | some x => .ok (.int x) | none => .error .ub
+      | .str s => match nonZString2Int s with | some x => .ok (.int x) | none => .error .type   -- error 1141/1136 since the repair 9e997b4 (`TempNone` handed to the operator body before it)
       | _ => .ok v
     else .ok v
   match v1 with
